@@ -1,9 +1,22 @@
+import os, re
+
 _D = 'AITB.Sampling.'
+
+
+def _harness_flags():
+    # the two-argument sampleDirichletDistribution overload only instantiates when the three-argument
+    # one is declared before it (fixes/C08-5); the harness calls it when it can
+    try:
+        src = open(os.path.join(os.environ.get('AITB_REPO', '/repo'), 'include/AIToolbox/Utils/Probability.hpp')).read()
+    except OSError:
+        return ()
+    return ('-DC08_DIRICHLET_2ARG',) if re.search(r'void\s+sampleDirichletDistribution\s*\([^)]*\)\s*;', src) else ()
+
 
 
 SPEC = {
     'id': 'C08',
-    'lean_modules': ['AITB.Props.C08Dense', 'AITB.Props.C08Project', 'AITB.Props.C08Vose', 'AITB.Props.C08', 'AITB.Props.C08Measure', 'AITB.Props.C08Round'],
+    'lean_modules': ['AITB.Props.C08Dense', 'AITB.Props.C08Project', 'AITB.Props.C08Vose', 'AITB.Props.C08', 'AITB.Props.C08Measure', 'AITB.Props.C08Round', 'AITB.Props.C08Models'],
     'theorems': [_D + t for t in [
         # dense inverse-CDF scan (sampleProbability, dense template)
         'dense_in_range', 'dense_preimage', 'dense_interval_length', 'dense_preimage_sum_one',
@@ -44,8 +57,18 @@ SPEC = {
         'sparse_current_selects_exact', 'sparse_current_not_total_selects', 'projectFixed_idempotent',
         # robustness against rounding of the subtraction (|sub a b - (a-b)| <= eps): breakpoints move by <= k*eps; agreement away from breakpoints
         'denseA_round_bounds', 'denseA_round_agrees', 'spacingsA_round', 'makeRandomProbabilityA_round',
+        # round 2: model objects as compositions over the STORED sparse rows; the cooperative factored model (DDN row ids, factored rewards);
+        # gamma-based samplers as functions of positive gamma draws
+        'sampleSRSparse_spec', 'sampleSRSparse_selects', 'sampleSORSparse_spec', 'sampleSORSparse_state_in_support', 'sampleSORSparse_obs_selects',
+        'sampleORSparse_selects', 'sampleORSparse_reward', 'sampleORSparse_in_support', 'sparseFixed_eq_dense_expansion', 'sampleSRSparse_eq_dense',
+        'ddnStartIds_getD', 'ddnStartIds_last', 'ddnStartIds_length', 'ddnGetId_lt_size', 'ddnGetId_in_block', 'ddnGetId_lt_size_valid',
+        'ddnGetId_injective_on_action_blocks', 'coopSampleS_length', 'coopSampleS_getD', 'coopSampleS_in_range', 'coopSampleS_factor_selects',
+        'coopSampleS_other_factor', 'coop_rewards_sum', 'coop_same_state', 'coop_reward_independent_of_draws',
+        'dirichlet_valid', 'dirichlet_isProb', 'dirichlet_valid_nonneg', 'dirichlet_all_zero_invalid', 'dirichlet_scale_invariant',
+        'beta_in_unit', 'beta_complement', 'beta_eq_dirichlet',
     ]],
     'harness': 'harness/c08.cpp',
+    'harness_flags': _harness_flags(),
     'level': 'proof',
     'timeout': {'quick': 400, 'thorough': 2400},
     'rule': 'seeded distributions (lengths 1..12 quick / 1..64 thorough; zeros anywhere, mass at first/last index, above-average first entry, '
